@@ -36,11 +36,11 @@ FAMILIES = {
     "sha256_crypt": (1000, 2500), "sha512_crypt": (1000, 2500), "md5_crypt": None, "pbkdf2_sha256": (1, 400), "sha1_crypt": (1, 1500), "bsdi_crypt": (1, 301),
     "phpass": (7, 9), "bcrypt": (4, 5), "des_crypt": None, "scrypt": (1, 4), "fshp": (1, 300), "ldap_salted_sha1": None, "ldap_sha256_crypt": (1000, 2500),
     "django_pbkdf2_sha256": (1, 300), "lmhash": None, "unix_disabled": None, "ldap_pbkdf2_sha256": (1, 300), "django_salted_sha1": None,
-    "scram": (1, 60), "django_bcrypt": (4, 5),
+    "scram": (1, 60), "django_bcrypt": (4, 5), "bcrypt_sha256": (4, 5),
 }
 #: hard cost limits of the formats (docs/lib/passlib.hash.*.rst), not read from the hashers
 HARD_LIMITS = {
-    "phpass": (7, 30), "bcrypt": (4, 31), "django_bcrypt": (4, 31), "sha256_crypt": (1000, 999999999), "sha512_crypt": (1000, 999999999), "ldap_sha256_crypt": (1000, 999999999),
+    "phpass": (7, 30), "bcrypt": (4, 31), "django_bcrypt": (4, 31), "bcrypt_sha256": (4, 31), "sha256_crypt": (1000, 999999999), "sha512_crypt": (1000, 999999999), "ldap_sha256_crypt": (1000, 999999999),
     "pbkdf2_sha256": (1, 4294967295), "ldap_pbkdf2_sha256": (1, 4294967295), "django_pbkdf2_sha256": (1, 4294967295), "sha1_crypt": (1, 4294967295), "bsdi_crypt": (1, 16777215),
     "scrypt": (1, 31), "fshp": (1, 4294967295), "scram": (1, 4294967295),
 }
@@ -54,6 +54,8 @@ def base_record(name):
     rec["truncate_error"] = getattr(h, "truncate_error", None)
     rec["extra"] = {k: getattr(h, k, None) for k in ("block_size", "parallelism", "default_variant", "default_marker")}
     rec["extra"]["algs"] = list(h.default_algs) if getattr(h, "default_algs", None) else None
+    if name == "bcrypt_sha256":
+        rec["extra"]["version"] = 2  # documented default format version
     return rec
 
 
@@ -124,6 +126,13 @@ def model_derive(name, parent_rec, kw):
         if v not in (0, 1, 2, 3):
             raise ConfigError("bad variant")
         rec["extra"]["default_variant"] = v
+    if "version" in kw:
+        if kw["version"] not in (1, 2):
+            raise ConfigError("bad version")
+        rec["extra"]["version"] = kw["version"]
+    if name == "bcrypt_sha256" and rec["extra"].get("version", 2) > 1 and rec["ident"] != "$2b$":
+        # documented: version 2 only exists for the 2b variant -- whichever of the two settings was inherited
+        raise ConfigError("ident not allowed for this version")
     if "marker" in kw:
         m = kw["marker"]
         if not m or m[0] not in "!*":
@@ -244,6 +253,9 @@ def probe(rec, name, node_obj, node_rec, cheap, where, hist, soft):
             return False
     if node_rec["extra"].get("algs") and sorted(getattr(obj, "algs", None) or []) != node_rec["extra"]["algs"]:
         fail(f"{where}-algs", f"{where}: hash does not carry the configured digest list", getattr(obj, "algs", None), node_rec["extra"]["algs"])
+        return False
+    if node_rec["extra"].get("version") is not None and getattr(obj, "version", None) != node_rec["extra"]["version"]:
+        fail(f"{where}-version", f"{where}: hash does not carry the configured format version", getattr(obj, "version", None), node_rec["extra"]["version"])
         return False
     if node_rec["extra"].get("default_variant") is not None and hasattr(obj, "variant") and obj.variant != node_rec["extra"]["default_variant"]:
         fail(f"{where}-variant", f"{where}: hash does not carry the configured variant", obj.variant, node_rec["extra"]["default_variant"])
@@ -405,6 +417,8 @@ def kw_strategy(name, first):
     if name == "scrypt":
         parts["block_size"] = st.sampled_from([1, 2, 8, "2", 0])
         parts["parallelism"] = st.sampled_from([1, 2, 3, 0, "2", "3"])
+    if name == "bcrypt_sha256":
+        parts["version"] = st.sampled_from([1, 2, 1, 2, 3, 0])
     if name == "fshp":
         parts["variant"] = st.sampled_from([0, 1, 2, 3, "sha256", "1", 7, "md5"])
     if name == "scram":
